@@ -54,7 +54,8 @@ Section Gen.
     e_nat : option content;               (* streaming serialiser rejects the document: on disk at that moment *)
     e_mid : option content;               (* on disk while the write is in progress *)
     e_pend : option content;              (* on disk after write() returned, before close() *)
-    e_flush : option (option content) }.  (* close() after a failed body: None = disk unchanged, Some d = disk is d *)
+    e_flush : option (option content);    (* close() after a failed body: None = disk unchanged, Some d = disk is d *)
+    e_late : bool }.                      (* a rejecting streaming serialiser writes before it fails *)
 
   Record prims (S : Type) := mkPrims {
     p_setA : option content -> S -> S;    (* effect of open / write / close on the target *)
@@ -105,12 +106,24 @@ Section Gen.
               end
           end
       | ShStream =>
-          (* serialiser(content, the_file): serialises and writes as it goes *)
+          (* serialiser(content, the_file): serialises and writes as it goes.  An
+             injected [SDumps] fault is a failure on entry.  A serialiser that
+             rejects the document does so at once ([e_late = false]: csv on an
+             empty list) or after having written part of it ([e_late = true]:
+             then a failing write comes first, and the in-progress state of the
+             target is a crash state) *)
           match sch SDumps with
           | Some ft => let g' := p_setA S P (fdisk ft) g in ([(SDumps, PFail, g')], g', Raised (fkind ft) SDumps)
           | None =>
               match new with
-              | None => let g' := p_setA S P (e_nat ev) g in ([(SDumps, PFail, g')], g', Raised KExc SDumps)
+              | None =>
+                  let g' := p_setA S P (e_nat ev) g in
+                  if e_late ev then
+                    match sch SWrite with
+                    | Some ft => let gw := p_setA S P (fdisk ft) g in ([(SWrite, PFail, gw)], gw, Raised (fkind ft) SWrite)
+                    | None => ([(SWrite, PMid, p_setA S P (e_mid ev) g); (SDumps, PFail, g')], g', Raised KExc SDumps)
+                    end
+                  else ([(SDumps, PFail, g')], g', Raised KExc SDumps)
               | Some _ => write_tr ev sch g
               end
           end
@@ -216,7 +229,7 @@ Section Gen.
 
   (** the environment under which the generalised program is FsModel.save:
       rename is atomic, close adds nothing to a failed body *)
-  Definition env0 : env := mkEnv true None None None None.
+  Definition env0 : env := mkEnv true None None None None false.
 
   (** what a user (or a wrapper script) can do after a crash: if there is a
       backup file, put it back *)
@@ -233,6 +246,7 @@ Arguments e_nat {X}.
 Arguments e_mid {X}.
 Arguments e_pend {X}.
 Arguments e_flush {X}.
+Arguments e_late {X}.
 Arguments env0 {X}.
 Arguments save_tr {X}.
 Arguments save_g {X}.
